@@ -79,12 +79,16 @@ def judge_split(case):
     n2 = k + 2
     refs2 = list(range(n2 - 1, n2 - 1 - k, -1))
     d2 = (50000.0 + 1000.0 * (np.arange(n2)[None, :] + 1) + t[:, None]).astype(float)
-    out = sut(gen.pre_multisetup, [d1.copy(), d2.copy()], [list(refs), list(refs2)])
+    # the reference indices in any of their equivalent forms: lists, tuples, integer arrays, lists of numpy integers
+    form = ["lists", "tuples", "arrays", "npints"][(7 * n + sum(refs) + 3 * k) % 4]
+    conv = {"lists": list, "tuples": tuple, "arrays": lambda r_: np.array(r_, dtype=int), "npints": lambda r_: [np.int64(v) for v in r_]}[form]
+    j.tag("ref_ind:" + form)
+    out = sut(gen.pre_multisetup, [d1.copy(), d2.copy()], [conv(refs), conv(refs2)])
     if j.check(not raised(out), "split-raises", lambda: f"{out!r}"):
         if j.check(isinstance(out, list) and len(out) == 2, "split-len", lambda: f"{type(out)}"):
             _cmp_split(j, "split", out[0], d1, refs)
             _cmp_split(j, "split2", out[1], d2, refs2)
-    ms = sut(lambda: MultiSetup_PreGER(fs=100.0, ref_ind=[list(refs), list(refs2)], datasets=[d1.copy(), d2.copy()]))
+    ms = sut(lambda: MultiSetup_PreGER(fs=100.0, ref_ind=[conv(refs), conv(refs2)], datasets=[d1.copy(), d2.copy()]))
     if not j.check(not raised(ms), "preger-raises", lambda: f"{ms!r}"):
         return j
     _cmp_split(j, "preger", ms.data[0], d1, refs)
@@ -96,7 +100,7 @@ def judge_split(case):
         ("decimate", lambda m: m.decimate_data(q=2), lambda d: signal.decimate(d, 2, axis=0)),
         ("filter", lambda m: m.filter_data(Wn=20.0, order=2, btype="lowpass"), lambda d: signal.sosfiltfilt(signal.butter(2, 20.0, btype="lowpass", output="sos", fs=100.0), d, axis=0)),
     ):
-        m2 = MultiSetup_PreGER(fs=100.0, ref_ind=[list(refs), list(refs2)], datasets=[d1.copy(), d2.copy()])
+        m2 = MultiSetup_PreGER(fs=100.0, ref_ind=[conv(refs), conv(refs2)], datasets=[d1.copy(), d2.copy()])
         r = sut(op, m2)
         if not j.check(not raised(r), f"{name}-raises", lambda: f"{r!r}"):
             continue
